@@ -16,7 +16,7 @@ use std::collections::BTreeSet;
 pub static DEF: PropDef = PropDef {
     id: "C16",
     level: "exploration",
-    rule: "groups of 2-3 mutations of one row drawn from {set field a, set field b, set field a again, add reference, replace entity reference, move to another room} issued together by concurrent callers or pipelined on one mutation stream against a real instance (reader pool of 4, real clock); after all acknowledgements the final row (fields, references, room) is compared with the set of outcomes of every serial order of the acknowledged mutations; non-trivial = all mutations of the group acknowledged and at least two of them touch different parts of the row; distinct = (kinds, mode) No-op clears of empty references are part of the pool; a loss in a group where a single mutation changes the row has its own signature.",
+    rule: "groups of 2-3 mutations of one row drawn from {set field a, set field b, set field a again, add reference, replace entity reference, move to another room} issued together by concurrent callers or pipelined on one mutation stream against a real instance (reader pool of 4, real clock); after all acknowledgements the final row (fields, references, room) is compared with the set of outcomes of every serial order of the acknowledged mutations; non-trivial = all mutations of the group acknowledged and at least two of them touch different parts of the row; distinct = (kinds, mode) No-op clears of empty references are part of the pool; a loss in a group where a single mutation changes the row has its own signature. Two group additions to one room definition pipelined on the mutation stream: the room held in memory must hold both; the stored row must verify as one signed image after every group.",
     assumptions: &[
         "interleavings are those the tokio scheduler, the reader pool and the batch writer produce under stress; they are sampled, not enumerated",
     ],
